@@ -20,6 +20,7 @@ pub mod c16;
 pub mod c17;
 pub mod c18;
 pub mod c19;
+pub mod fuzz_support;
 
 pub struct Entry {
     pub id: &'static str,
